@@ -150,8 +150,34 @@ def fill(claim, na):
         "classification of cubic.py's random start vector.",
         "DESIGN.md section 4, C17",
     )
-    for pid in ( "C06", "C07", "C09", "C11", "C12", "C13",
-                "C18", "C19"):
+    claim(
+        "C12", "other",
+        "provenance of the lmfit parameter keywords, CFG must-pass-through for the final write-back, mutation summaries, sort-key inspection",
+        "Partial: decides the wiring of the invariants, not recovery of generating parameters. _to_lmfit passes "
+        "value/min/max/vary/expr taken from the element's own getters and refuses values outside their limits; "
+        "_fit_process fits a deep copy, generates identifiers from it, and every path to its success return passes the "
+        "final _from_lmfit write-back; FitResult.parameters is extracted from the same circuit and minimizer result; "
+        "fit_circuit does not modify its inputs and validates method/weight against the tables it iterates before work; "
+        "the winner is the smallest pseudo chi-squared among successful fits; _from_lmfit inverts the identifier map.",
+        "Trusted: lmfit honours min/max/vary/expr. Many recognisers are shape-specific (a refactoring can need re-confirmation).",
+        "DESIGN.md section 4, C12",
+    )
+    claim(
+        "C18", "other",
+        "abstract interpretation counting progress increments symbolically (sizes of option lists as polynomial symbols, all consistent truth assignments of option tests explored), option-table agreement, raise-type inventory",
+        "For 12 Progress blocks (the log-F_ext optimisation branch of evaluate_log_F_ext excepted, stated in the evidence) "
+        "an abstract interpreter inlines every callee that receives the progress object, tracks collection sizes "
+        "symbolically, explores every consistent assignment of the option tests, and proves increments <= total-1 as a "
+        "polynomial inequality — so a miscounted literal, an option list that grows, or an extra increment is found for "
+        "every option combination at once. Also: 'auto' expansions and validation tables vs dispatch arms; raise types in "
+        "entry points; type validation before work; Progress.increment's refusal precedes notification.",
+        "Trusted lemmas (listed per block in the evidence): map/imap yield one result per item; filtered comprehensions "
+        "and slices do not grow; len(range(a,b)) = b-a; the Z-HIT window registry is non-empty. Not decided: shape/index "
+        "errors inside numerical kernels; failures inside SciPy/lmfit.",
+        "DESIGN.md section 4, C18",
+    )
+    for pid in ( "C06", "C07", "C09", "C11", "C13",
+                "C19"):
         na(pid, NOT_YET)
     na("C10", "statistical behaviour of a heuristic pipeline (noise tracking, drift margin) on noisy inputs: quantifies over "
               "numerical outcomes of optimisers and random noise; no sound static argument bounds it")
